@@ -67,6 +67,7 @@ type fnInfo struct {
 	n       int
 	live    *liveInfo
 	intRegs []bool
+	loopCtr []int
 }
 
 type Deferred struct {
@@ -1132,8 +1133,9 @@ func (e *Engine) joinKey(p *Path) string {
 	// counters) agree: loops are unrolled per iteration and a merged counter
 	// never hides the loop bound from constant folding.
 	for fi, f := range p.Cur.Frames {
-		for i, r := range f.Regs {
-			if r != nil && len(r) == 1 && r[0].IsConst() && r[0].W == 64 && r[0].Val < 4096 {
+		lc := e.loopCounters(f.Fn)
+		for _, i := range lc {
+			if r := f.Regs[i]; r != nil && len(r) == 1 && r[0].IsConst() {
 				fmt.Fprintf(&sb, "%d.%d=%d,", fi, i, r[0].Val)
 			}
 		}
@@ -1146,6 +1148,46 @@ func (e *Engine) joinKey(p *Path) string {
 		fmt.Fprintf(&sb, "park%d:%s:%v;", r.Pid, r.Key, r.Exited)
 	}
 	return sb.String()
+}
+
+// loopCounters lists the registers that control loop exits: phi nodes of a
+// block whose value (possibly plus a constant) is compared in that block and
+// the comparison decides the block's terminating If. Accumulators such as
+// "seen++" are not loop counters and may be merged.
+func (e *Engine) loopCounters(fn *ssa.Function) []int {
+	fi := e.info(fn)
+	if fi.loopCtr != nil {
+		return fi.loopCtr
+	}
+	out := []int{}
+	for _, b := range fn.Blocks {
+		if len(b.Instrs) == 0 {
+			continue
+		}
+		ifi, ok := b.Instrs[len(b.Instrs)-1].(*ssa.If)
+		if !ok {
+			continue
+		}
+		cmp, ok := ifi.Cond.(*ssa.BinOp)
+		if !ok || cmp.Block() != b {
+			continue
+		}
+		for _, opnd := range []ssa.Value{cmp.X, cmp.Y} {
+			v := opnd
+			if bo, ok := v.(*ssa.BinOp); ok && bo.Block() == b && (bo.Op == token.ADD || bo.Op == token.SUB) {
+				if _, isC := bo.Y.(*ssa.Const); isC {
+					v = bo.X
+				}
+			}
+			if ph, ok := v.(*ssa.Phi); ok && ph.Block() == b {
+				if i, ok := fi.idx[ph]; ok {
+					out = append(out, i)
+				}
+			}
+		}
+	}
+	fi.loopCtr = out
+	return out
 }
 
 // mergePaths merges paths that are at the same location (same joinKey).
